@@ -440,6 +440,86 @@ def run_field_table(report):
         report.violation("config_field_table", dict(kind="table", problems=problems), found_input=False)
 
 
+def run_cli_steps(report, rng):
+    """after real command-line builds: what the driver resolved (build/<output>.toml, the per-master configurations) is
+    what the steps were handed (the glyph map each font-writing step reads, row by row against the file names)"""
+    import toml
+
+    from nanoemoji import codepoints as cpmod
+    from nanoemoji import glyph as glyphmod
+    from nanoemoji import glyphmap as gmmod
+
+    from harness import build, ninjafile
+    from harness.common import scratch_dir
+
+    art = lambda col, k=0: f'<svg xmlns="http://www.w3.org/2000/svg" viewBox="0 0 100 100"><path d="M{10 + k},10 L{40 + k},10 L{40 + k},{40 + k} Z" fill="{col}"/></svg>'
+    # ---- a static build from file names in the usual spellings (variation selectors, ZWJ, upper case, prefixes)
+    names = ["2764-fe0f.svg", "1f3f3-fe0f-200d-1f308.svg", "emoji_u1f468_200d_2764_fe0f_200d_1f468.svg", "1F9D1-200D-1F91D-200D-1F9D1.svg", "emoji_u1f600.svg", "u1f601.svg"]
+    with scratch_dir("verif-c10cli-") as d:
+        (d / "src").mkdir()
+        for k, n_ in enumerate(names):
+            (d / "src" / n_).write_text(art("#%02x4080" % (20 * k), k))
+        flags = ["--family", "Steps Fam", "--upem", "1000", "--ascender", "800", "--descender", "-200", "--width", "0", "--nokeep_glyph_names", "--color_format", "glyf_colr_1"]
+        rc, out = build.run_cli(["--build_dir", d / "build"] + flags + [str(d / "src" / n_) for n_ in names], cwd=d)
+        report.count(("cli-steps", "static"), True)
+        if rc != 0:
+            report_failure(report, "cli_steps_build", dict(kind="e2e-cli", problem="the build failed", log=out[-1200:], files=names))
+            return
+        written = toml.load(d / "build" / "Font.toml")
+        want = dict(family="Steps Fam", upem=1000, ascender=800, descender=-200, width=0, keep_glyph_names=False, color_format="glyf_colr_1")
+        bad = {k: (written.get(k), v) for k, v in want.items() if written.get(k) != v}
+        if bad:
+            report_failure(report, "cli_steps_toml", dict(kind="e2e-cli", problem="build/Font.toml does not carry what was given on the command line", differs=str(bad)))
+            return
+        with open(d / "build" / "Font.glyphmap") as f:
+            rows = gmmod.load_from(f)
+        by_name = {Path(str(r.svg_file)).name: r for r in rows}
+        probs = []
+        if sorted(by_name) != sorted(names):
+            probs.append(f"glyph map lists {sorted(by_name)}, the inputs are {sorted(names)}")
+        for n_ in names:
+            r = by_name.get(n_)
+            if r is None:
+                continue
+            cps = tuple(cpmod.from_filename(n_))  # the file-name scanner (Model.FileName, tied separately)
+            if tuple(r.codepoints) != cps:
+                probs.append(f"{n_}: the step sees codepoints {['%04x' % c for c in r.codepoints]}, the file name says {['%04x' % c for c in cps]}")
+            elif r.glyph_name != glyphmod.glyph_name(cps):
+                probs.append(f"{n_}: glyph name {r.glyph_name} != {glyphmod.glyph_name(cps)}")
+        if probs:
+            report_failure(report, "cli_steps_glyphmap", dict(kind="e2e-cli", problem="the glyph map the font-writing step reads is not what the file names say", problems=probs[:4]))
+            return
+    # ---- a two-master build: every master's font-writing step must be handed that master's own glyph map
+    with scratch_dir("verif-c10vf-") as d:
+        for m, col in (("thin", "red"), ("bold", "blue")):
+            (d / m).mkdir()
+            for k in range(2):
+                (d / m / f"emoji_u{0x1F600 + k:x}.svg").write_text(art(col, k + (3 if m == "bold" else 0)))
+        (d / "vf.toml").write_text('output_file="VF.ttf"\ncolor_format="glyf_colr_1"\nreuse_tolerance=-1.0\n[axis.wght]\nname="Weight"\ndefault=100\n'
+                                   '[master.thin]\nstyle_name="Thin"\nsrcs=["thin/*.svg"]\n[master.thin.position]\nwght=100\n'
+                                   '[master.bold]\nstyle_name="Bold"\nsrcs=["bold/*.svg"]\n[master.bold.position]\nwght=700\n')
+        rc, out = build.run_cli(["--build_dir", d / "build", d / "vf.toml"], cwd=d)
+        report.count(("cli-steps", "two masters"), True)
+        if rc != 0:
+            report_failure(report, "cli_steps_vf_build", dict(kind="e2e-cli", problem="the two-master build failed", log=out[-1200:]))
+            return
+        rules, edges = ninjafile.parse(d / "build" / "build.ninja")
+        ufo_edges = [e for e in edges if e["rule"] == "write_font" and e["outs"][0].endswith(".ufo")]
+        probs = []
+        if len(ufo_edges) != 2:
+            probs.append(f"{len(ufo_edges)} master font-writing steps for 2 masters")
+        for e in ufo_edges:
+            cfg = toml.load(d / "build" / e["vars"]["config_file"])
+            (mname, mcfg), = cfg["master"].items()
+            with open(d / "build" / e["vars"]["glyphmap_file"]) as f:
+                rows = gmmod.load_from(f)
+            seen = sorted(str(r.svg_file) for r in rows)
+            if seen != sorted(mcfg["srcs"]):
+                probs.append(f"master {mname}: its step reads {seen} (from {e['vars']['glyphmap_file']}), its configuration lists {sorted(mcfg['srcs'])}")
+        if probs:
+            report_failure(report, "cli_steps_masters", dict(kind="e2e-cli", problem="a master's font-writing step is not handed that master's sources", problems=probs[:3]))
+
+
 def main(argv):
     common.setup_env()
     tier = common.tier_from_args(argv)
@@ -461,6 +541,8 @@ def main(argv):
     run_field_table(report)
     run_config(report, rng, tier)
     run_parts_and_rsp(report, rng, 40 if tier == "quick" else 600)
+    if not report.violations:
+        run_cli_steps(report, rng)
     if not st["proof_ok"] and not report.violations:
         report.violation("proof", dict(kind="proof", theorem="Props/C10.v", detail=report.notes.get("proof_failure")), found_input=False)
     report.open_obligations = [
